@@ -34,7 +34,11 @@ META = {
                    "GetScriptText whose position is the previous segment's selected candidate's end() rather than seg.start are covered "
                    "only when that candidate ends where its segment ends (no upper bound on candidate ends is an invariant: a closed "
                    "segment keeps its old menu). Loop termination is proved for the modelled segmentors (abc_segmentor, "
-                   "fallback_segmentor); other segmentors (punct, matcher, ascii, affix) are runtime-only."),
+                   "fallback_segmentor); other segmentors (punct, matcher, ascii, affix) are runtime-only. The geometric theorems also "
+                   "ASSUME NoPrevMatch (auto_select off, or a max_code_length set): for auto_select schemas without a code-length bound "
+                   "Speller::AutoSelectPreviousMatch pushes back a copied segment without comparing positions; the model follows it and "
+                   "agrees with the code (schemas vs_auto / vs_autof), but that the copy fits is not proved. The recursion of "
+                   "FindEarlierMatch is modelled with fuel |input|+1; that the fuel is never what stops it is not proved."),
     "design_ref": "DESIGN.md §3 C01",
 }
 
@@ -278,7 +282,8 @@ def run(c):
     c.cov = cov
     c.assumptions = ["string arguments are non-null C strings (only session ids, indices, keycodes, masks and documented out-parameters are adversarial)",
                      "one client thread",
-                     "TranslateGeo (geometric theorems only): every candidate a translator produces for a segment ends at or after the segment's start"]
+                     "TranslateGeo (geometric theorems only): every candidate a translator produces for a segment ends at or after the segment's start",
+                     "NoPrevMatch (geometric theorems only): auto_select off or max_code_length set"]
 
 
 def replay(c, r):
